@@ -105,6 +105,15 @@ def run(tier, mode):
             ws = [(x, 'NE/4') for x in want]
             if gs != ws:
                 fail('plssdesc_sections', {'text': desc, 'items': items}, gs, ws)
+            # whole sections conveyed: the list ends the text (its last marker coincides with the end of the text), with or without the colon
+            for tail in ('', ':'):
+                dtext = f'T154N-R97W {txt}{tail}' if i % 8 == 0 else f'{txt}{tail} T154N-R97W'
+                d3 = H.call(pytrs.PLSSDesc, dtext)
+                n_or += 1
+                if isinstance(d3, H.Exn) or [t.sec for t in d3.tracts] != want:
+                    fail('plssdesc_sections_at_end', {'text': dtext, 'items': items}, d3 if isinstance(d3, H.Exn) else [t.sec for t in d3.tracts], want)
+            if gs != ws:
+                pass
             elif descending(items):
                 # a descending section range raises the non-sequential warning -- also when the section is only accepted on the colon-cautious second pass
                 for dtext, cfg in ((desc, ''), (f'T154N-R97W {txt} NE/4', 'sec_colon_cautious')):
